@@ -3,6 +3,7 @@ Helper lemmas for the whole-simulation model (M5/M7: nested schedulers, `tickLev
 -/
 import TickitModel.Core.Sim
 import TickitModel.Lemmas.TickerLemmas
+import TickitModel.Lemmas.RouterBfs
 
 namespace Tickit
 
@@ -32,5 +33,151 @@ def Static.isDevice (S : Static) (c : Comp) : Prop :=
 
 /-- how many times device `c` was updated -/
 def SimSt.updates (st : SimSt) (c : Comp) : Nat := (st.obs.filter (fun o => o.comp == c)).length
+
+/-! ### small facts about `Static`, `SimSt` -/
+
+theorem Static.level_some {S : Static} {n : Comp} {L : Level} (h : S.level n = some L) :
+    L ∈ S.levels ∧ L.name = n := by
+  unfold Static.level at h
+  refine ⟨List.mem_of_find?_eq_some h, ?_⟩
+  have := List.find?_some h
+  simpa using this
+
+theorem sim_agetD_upsert {κ β : Type} [DecidableEq κ] (m : List (κ × β)) (k x : κ) (v d : β) :
+    agetD (upsert m k v) x d = if k = x then v else agetD m x d := by
+  unfold agetD
+  rw [alookup_upsert]
+  split <;> rfl
+
+theorem SimSt.sched_upsert (st : SimSt) (k : Comp) (v : SchedSt) (s : Comp) :
+    ({ st with scheds := upsert st.scheds k v } : SimSt).sched s = if k = s then v else st.sched s := by
+  unfold SimSt.sched
+  exact sim_agetD_upsert _ _ _ _ _
+
+theorem SimSt.sched_empty (s : Comp) : (({} : SimSt).sched s).firstDone = false := rfl
+
+/-! ### the nesting order
+
+`S.Below lvl c`: component `c` lies strictly below scheduler level `lvl` (a chain of parents
+leads from `c` to `lvl`; no intermediate element of the chain is the master `""`).
+`S.Own c x`: `x` is `c` itself or lies below the (non-master) level `c`. -/
+
+inductive Static.Below (S : Static) (lvl : Comp) : Comp → Prop
+  | direct {c : Comp} : alookup S.parent c = some lvl → Static.Below S lvl c
+  | step {c p : Comp} : alookup S.parent c = some p → p ≠ "" → Static.Below S lvl p →
+      Static.Below S lvl c
+
+def Static.Own (S : Static) (c x : Comp) : Prop := x = c ∨ (c ≠ "" ∧ S.Below c x)
+
+theorem Static.Own.refl (S : Static) (c : Comp) : S.Own c c := Or.inl rfl
+
+theorem Static.Below.depth_lt {S : Static} {depth : Comp → Nat}
+    (hd : ∀ c p, alookup S.parent c = some p → p ≠ "" → depth p < depth c) {a b : Comp}
+    (h : S.Below a b) (ha : a ≠ "") : depth a < depth b := by
+  induction h with
+  | direct h => exact hd _ _ h ha
+  | step h hp _ ih => exact Nat.lt_trans ih (hd _ _ h hp)
+
+theorem Static.Below.irrefl {S : Static} (hS : S.WF) {c : Comp} (hc : c ≠ "") : ¬ S.Below c c := by
+  obtain ⟨depth, hd⟩ := hS.nesting
+  intro h
+  exact Nat.lt_irrefl _ (h.depth_lt hd hc)
+
+theorem Static.Below.exists_child {S : Static} {a b : Comp} (h : S.Below a b) :
+    ∃ y, alookup S.parent y = some a := by
+  induction h with
+  | direct h => exact ⟨_, h⟩
+  | step _ _ _ ih => exact ih
+
+/-- only the master and systems have anything below them -/
+theorem Static.Below.isSys {S : Static} (hS : S.WF) {a b : Comp} (h : S.Below a b) :
+    a = "" ∨ S.isSys a = true := by
+  obtain ⟨y, hy⟩ := h.exists_child
+  obtain ⟨_, _, _, h'⟩ := hS.parent_level y a hy
+  exact h'
+
+/-- parent chains are unique -/
+theorem Static.Below.total {S : Static} {a b x : Comp} (ha : S.Below a x) (hb : S.Below b x) :
+    a = b ∨ S.Below a b ∨ S.Below b a := by
+  induction ha with
+  | direct h =>
+    cases hb with
+    | direct h' => rw [h] at h'; cases h'; exact Or.inl rfl
+    | step h' hp hb' => rw [h] at h'; cases h'; exact Or.inr (Or.inr hb')
+  | step h hp ha' ih =>
+    cases hb with
+    | direct h' => rw [h] at h'; cases h'; exact Or.inr (Or.inl ha')
+    | step h' hp' hb' => rw [h] at h'; cases h'; exact ih hb'
+
+/-- what lies below a child of `lvl` lies below `lvl` -/
+theorem Static.Below.lift {S : Static} {lvl c x : Comp} (hc : alookup S.parent c = some lvl)
+    (hne : c ≠ "") (h : S.Below c x) : S.Below lvl x := by
+  induction h with
+  | direct h => exact .step h hne (.direct hc)
+  | step h hp _ ih => exact .step h hp ih
+
+theorem Static.Own.below {S : Static} {lvl c x : Comp} (hc : alookup S.parent c = some lvl)
+    (h : S.Own c x) : S.Below lvl x := by
+  rcases h with rfl | ⟨hne, h⟩
+  · exact .direct hc
+  · exact h.lift hc hne
+
+/-- everything below `lvl` belongs to exactly one child of `lvl` -/
+theorem Static.Below.top {S : Static} {lvl x : Comp} (h : S.Below lvl x) :
+    ∃ c, alookup S.parent c = some lvl ∧ S.Own c x := by
+  induction h with
+  | direct h => exact ⟨_, h, Or.inl rfl⟩
+  | step h hp _ ih =>
+    obtain ⟨c, hc, hown⟩ := ih
+    refine ⟨c, hc, Or.inr ?_⟩
+    rcases hown with rfl | ⟨hne, hb⟩
+    · exact ⟨hp, .direct h⟩
+    · exact ⟨hne, .step h hp hb⟩
+
+theorem Static.Own.unique {S : Static} (hS : S.WF) {lvl c1 c2 x : Comp}
+    (h1 : alookup S.parent c1 = some lvl) (h2 : alookup S.parent c2 = some lvl)
+    (o1 : S.Own c1 x) (o2 : S.Own c2 x) : c1 = c2 := by
+  obtain ⟨depth, hd⟩ := hS.nesting
+  -- a non-master child of `lvl` is not below another child of `lvl`
+  have key : ∀ a b, alookup S.parent a = some lvl → alookup S.parent b = some lvl → a ≠ "" →
+      ¬ S.Below a b := by
+    intro a b ha hb hne hab
+    cases hab with
+    | direct h =>
+      rw [hb] at h; cases h
+      exact Nat.lt_irrefl _ (hd _ _ ha hne)
+    | step h hp hb' =>
+      rw [hb] at h; cases h
+      exact Nat.lt_irrefl _ (Nat.lt_trans (hb'.depth_lt hd hne) (hd _ _ ha hp))
+  rcases o1 with rfl | ⟨n1, b1⟩
+  · rcases o2 with rfl | ⟨n2, b2⟩
+    · rfl
+    · exact absurd b2 (key _ _ h2 h1 n2)
+  · rcases o2 with rfl | ⟨n2, b2⟩
+    · exact absurd b1 (key _ _ h1 h2 n1)
+    · rcases b1.total b2 with h | h | h
+      · exact h
+      · exact absurd h (key _ _ h1 h2 n1)
+      · exact absurd h (key _ _ h2 h1 n2)
+
+/-- every real component lies below the master -/
+theorem Static.below_master {S : Static} (hS : S.WF) {c : Comp} (hc : (alookup S.parent c).isSome) :
+    S.Below "" c := by
+  obtain ⟨depth, hd⟩ := hS.nesting
+  have key : ∀ n c, depth c < n → (alookup S.parent c).isSome → S.Below "" c := by
+    intro n
+    induction n with
+    | zero => intro c h; omega
+    | succ n ih =>
+      intro c hlt hc
+      obtain ⟨p, hp⟩ := Option.isSome_iff_exists.1 hc
+      by_cases hpe : p = ""
+      · subst hpe; exact .direct hp
+      · obtain ⟨_, _, _, hsys⟩ := hS.parent_level c p hp
+        rcases hsys with h | h
+        · exact absurd h hpe
+        · have := hd c p hp hpe
+          exact .step hp hpe (ih p (by omega) (hS.sys_parent p h))
+  exact key _ c (Nat.lt_succ_self _) hc
 
 end Tickit
